@@ -24,7 +24,7 @@ import re
 import common as C
 
 A = "alice@example.com"
-CLASSES = {1: "empty_part_s3_blob"}
+CLASSES = {}   # no finding class is left
 NO = "NO"   # FETCH answered with a tagged NO
 BOUNDARY = "=_c15bnd"
 
@@ -282,7 +282,13 @@ def gen_scenario(rng, idx, thorough):
         script = []
         if writer_s3 and rng.random() < 0.6:
             script = [rng.choice(["ok", "ok", "500", "404", "drop"]) for _ in range(rng.randint(1, 5))]
-        steps.append(("store", side, script, parts, single))
+        rcpts = ["alice"]
+        if side == "lmtp" and rng.random() < 0.4:
+            # one LMTP transaction for 2-4 recipients (users and a role address, duplicates
+            # allowed): every recipient gets its own copy through the same store loop
+            rcpts = [rng.choice(["alice", "bob", "carol", "sales"]) for _ in range(rng.randint(2, 4))]
+            script = []
+        steps.append(("store", side, script, parts, single, rcpts))
         stored += [t for (_, t, _) in parts]
         if rng.random() < 0.35:
             steps.append(("reads", "last"))
@@ -293,21 +299,43 @@ def gen_scenario(rng, idx, thorough):
 # --------------------------------------------------------------------------
 # blobs suite: compile a scenario to driver ops
 
-def fetch_ops(tag, seq, item, script):
+ROLE = "sales@example.com"
+# recipient key -> (address, store file, IMAP connection that reads it, mailbox path)
+RCPT = {
+    "alice": (A, "user_db_1", "c", "INBOX"),
+    "bob": ("bob@example.com", "user_db_2", "cb", "INBOX"),
+    "carol": ("carol@example.com", "user_db_3", "cc", "INBOX"),
+    "sales": (ROLE, "role_db_1", "c", "Roles/%s/INBOX" % ROLE),
+}
+STORES = ["user_db_1", "user_db_2", "user_db_3", "role_db_1"]
+
+
+def fetch_ops(conn, tag, seq, item, script):
     return [{"op": "s3_script", "script": script},
-            {"op": "send", "conn": "c", "data": "%s FETCH %d %s\r\n" % (tag, seq, item), "until": "tag:" + tag},
+            {"op": "send", "conn": conn, "data": "%s FETCH %d %s\r\n" % (tag, seq, item), "until": "tag:" + tag},
             {"op": "s3_state"}]
 
 
 def compile_scenario(steps, rng, parsed_of):
-    """returns (ops, plan) — plan entries describe how to read the observations back"""
-    ops = [{"op": "open", "conn": "c", "kind": "tls"},
-           {"op": "send", "conn": "c", "data": "a0 LOGIN %s pw\r\n" % A, "until": "tag:a0"},
-           {"op": "s3_enable", "imap": False, "lmtp": False, "timeout": 2}]
-    plan = [None, ("login",), None]
+    """returns (ops, plan, copies) — plan entries describe how to read the observations
+    back; copies[m] = where the m-th stored copy (= model message m) lives"""
+    ops = []
+    plan = []
+    for conn, who in (("c", A), ("cb", RCPT["bob"][0]), ("cc", RCPT["carol"][0])):
+        ops += [{"op": "open", "conn": conn, "kind": "tls"},
+                {"op": "send", "conn": conn, "data": "a0 LOGIN %s pw\r\n" % who, "until": "tag:a0"}]
+        plan += [None, ("login",)]
+    ops += [{"op": "role_create", "email": ROLE}, {"op": "role_assign", "user": A, "role": 1},
+            {"op": "user_id", "email": A}, {"op": "user_id", "email": RCPT["bob"][0]}, {"op": "user_id", "email": RCPT["carol"][0]},
+            {"op": "s3_enable", "imap": False, "lmtp": False, "timeout": 2}]
+    plan += [("ident", 1), None, ("ident", 1), ("ident", 2), ("ident", 3), None]
     cfg = {"imap": False, "lmtp": False}
     nmsg = 0
-    msgs = []   # per stored message: (single, nparts_rows)
+    ntx = 0
+    msgs = []     # per stored copy: (single, nparts_rows)
+    copies = []   # per stored copy: (store file, conn, mailbox, sequence number)
+    count = {}    # (conn, mailbox) -> messages so far
+    selected = {}  # conn -> mailbox selected since the last delivery
     tagc = [0]
     locked = False
 
@@ -319,15 +347,25 @@ def compile_scenario(steps, rng, parsed_of):
         ops.append(o)
         plan.append(p)
 
+    def new_copy(key):
+        _, store, conn, mbox = RCPT[key]
+        count[(conn, mbox)] = count.get((conn, mbox), 0) + 1
+        copies.append((store, conn, mbox, count[(conn, mbox)]))
+
     def reads_for(m, reader, faulty):
         single, nrows = msgs[m]
+        store, conn, mbox, seq = copies[m]
+        if selected.get(conn) != mbox:
+            t = tag()
+            add({"op": "send", "conn": conn, "data": "%s SELECT %s\r\n" % (t, mbox), "until": "tag:" + t})
+            selected[conn] = mbox
         ks = [1] if single else list(range(1, nrows))
         for k in ks:
             script = []
             if faulty and reader and rng.random() < 0.35:
                 script = [rng.choice(["500", "404", "drop"])]
             t = tag()
-            fo = fetch_ops(t, m + 1, "BODY[%d]" % k, script)
+            fo = fetch_ops(conn, t, seq, "BODY[%d]" % k, script)
             add(fo[0])
             add(fo[1], ("read", m, (0 if single else k), reader, script, t, "BODY[%d]" % k))
             add(fo[2], ("getlog",))
@@ -337,7 +375,7 @@ def compile_scenario(steps, rng, parsed_of):
             # be told from a transport-level re-send of a dropped GET (see effective())
             script = [rng.choice(["ok", "500", "404"]) for _ in range(rng.randint(1, 3))]
         t = tag()
-        fo = fetch_ops(t, m + 1, "BODY[]", script)
+        fo = fetch_ops(conn, t, seq, "BODY[]", script)
         add(fo[0])
         add(fo[1], ("readall", m, reader, script, t, single))
         add(fo[2], ("getlog",))
@@ -355,31 +393,37 @@ def compile_scenario(steps, rng, parsed_of):
             locked = bool(st[1])
             add({"op": "db_lock" if locked else "db_unlock"})
         elif st[0] == "store":
-            _, side, script, parts, single = st
+            side, script, parts, single = st[1:5]
+            rcpts = list(st[5]) if len(st) > 5 and st[5] else ["alice"]
             raw = mk_message(parts, single, "m%d" % nmsg)
             add({"op": "s3_script", "script": script})
             if side == "lmtp":
-                l = "l%d" % nmsg
+                l = "l%d" % ntx
                 add({"op": "lmtp_open", "conn": l})
                 add({"op": "send", "conn": l, "data": "LHLO x\r\n", "until": "lmtp:1"})
                 add({"op": "send", "conn": l, "data": "MAIL FROM:<s@example.com>\r\n", "until": "lmtp:1"})
-                add({"op": "send", "conn": l, "data": "RCPT TO:<%s>\r\n" % A, "until": "lmtp:1"})
+                for key in rcpts:
+                    add({"op": "send", "conn": l, "data": "RCPT TO:<%s>\r\n" % RCPT[key][0], "until": "lmtp:1"}, ("rcpt",))
                 add({"op": "send", "conn": l, "data": "DATA\r\n", "until": "lmtp:1"})
-                add({"op": "send", "conn": l, "data": C.latin(raw) + ".\r\n", "until": "lmtp:1", "timeout_ms": 20000},
-                    ("stored", nmsg, side, cfg[side], script, raw, "250", locked))
+                add({"op": "send", "conn": l, "data": C.latin(raw) + ".\r\n", "until": "lmtp:%d" % len(rcpts), "timeout_ms": 30000},
+                    ("stored", nmsg, side, cfg[side], script, raw, "250", locked, len(rcpts)))
                 add({"op": "send", "conn": l, "data": "QUIT\r\n", "until": "lmtp:1"})
             else:
+                rcpts = ["alice"]
                 t = tag()
                 add({"op": "send", "conn": "c", "data": "%s APPEND INBOX {%d}\r\n" % (t, len(raw)), "until": "cont:" + t})
                 add({"op": "send", "conn": "c", "data": C.latin(raw) + "\r\n", "until": "tag:" + t, "timeout_ms": 20000, "only_if_cont": True},
-                    ("stored", nmsg, side, cfg[side], script, raw, t + " OK", locked))
+                    ("stored", nmsg, side, cfg[side], script, raw, t + " OK", locked, 1))
             add({"op": "s3_script", "script": []})
             add({"op": "s3_state"}, ("storelog",))
-            msgs.append((single, len(parsed_of(raw))))
-            nmsg += 1
+            for key in rcpts:
+                msgs.append((single, len(parsed_of(raw))))
+                new_copy(key)
+                nmsg += 1
+            ntx += 1
+            selected.clear()
         elif st[0] == "reads":
-            t = tag()
-            add({"op": "send", "conn": "c", "data": "%s SELECT INBOX\r\n" % t, "until": "tag:" + t})
+            selected.clear()
             if st[1] == "last":
                 if msgs:
                     reads_for(nmsg - 1, cfg["imap"], True)
@@ -390,9 +434,10 @@ def compile_scenario(steps, rng, parsed_of):
                         reads_for(m, reader, reader and st[1] != "all_clean")
                 add({"op": "s3_enable", "imap": cfg["imap"], "lmtp": cfg["lmtp"], "timeout": 2})
     add({"op": "sql", "store": "shared", "q": "SELECT id, sha256_hash, storage_type, reference_count, COALESCE(content,''), COALESCE(s3_blob_id,''), content IS NULL FROM blobs ORDER BY id"}, ("blobs",))
-    add({"op": "sql", "store": "user_db_1", "q": "SELECT message_id, id, blob_id, COALESCE(text_content,''), COALESCE(content_transfer_encoding,'') FROM message_parts ORDER BY message_id, id"}, ("rows",))
+    for store in STORES:
+        add({"op": "sql", "store": store, "q": "SELECT message_id, id, blob_id, COALESCE(text_content,''), COALESCE(content_transfer_encoding,'') FROM message_parts ORDER BY message_id, id"}, ("rows", store))
     add({"op": "s3_state"}, ("bucket",))
-    return ops, plan
+    return ops, plan, copies
 
 
 def parse_fetch(recv, item, tag):
@@ -444,7 +489,7 @@ def steps_json(steps):
     out = []
     for st in steps:
         if st[0] == "store":
-            out.append(["store", st[1], list(st[2]), [[e, C.latin(t), fn] for (e, t, fn) in st[3]], st[4]])
+            out.append(["store", st[1], list(st[2]), [[e, C.latin(t), fn] for (e, t, fn) in st[3]], st[4]] + ([list(st[5])] if len(st) > 5 else []))
         elif st[0] == "lose":
             out.append(["lose", None if st[1] is None else [C.latin(x) for x in st[1]]])
         else:
@@ -456,7 +501,7 @@ def steps_unjson(steps):
     out = []
     for st in steps:
         if st[0] == "store":
-            st = ("store", st[1], st[2], [(e, C.unlatin(t), fn) for (e, t, fn) in st[3]], st[4])
+            st = ("store", st[1], st[2], [(e, C.unlatin(t), fn) for (e, t, fn) in st[3]], st[4]) + ((list(st[5]),) if len(st) > 5 else ())
         elif st[0] == "lose":
             st = ("lose", None if st[1] is None else [C.unlatin(x) for x in st[1]])
         out.append(tuple(st))
@@ -522,12 +567,12 @@ def judge_scenarios(chk, scen, rng, corpus_expect=None):
         return parsed[hashlib.sha1(key).hexdigest()]
 
     compiled = [compile_scenario(steps, rng, parsed_of) for steps in scen]
-    results = C.run_many([ops for ops, _ in compiled], workers=12, timeout=900)
+    results = C.run_many([ops for ops, _, _ in compiled], workers=12, timeout=900)
 
     T = Interner()
     body_defs = []
     layout = []     # per scenario: dict describing result positions
-    for si, ((ops, plan), res) in enumerate(zip(compiled, results)):
+    for si, ((ops, plan, copies), res) in enumerate(zip(compiled, results)):
         if res.get("crashed") or len(res["obs"]) != len(ops):
             chk.broken_obligation("driver crashed in C15 blobs scenario %d: %s" % (si, res.get("stderr", "")[:300]), {"suite": "blobs", "steps": steps_json(scen[si])})
             layout.append(None)
@@ -540,6 +585,7 @@ def judge_scenarios(chk, scen, rng, corpus_expect=None):
         readalls = []
         sent = []       # per message: parsed parts
         anomalies = []
+        rows_by_store = {}
         i = 0
         while i < len(ops):
             p = plan[i]
@@ -549,13 +595,18 @@ def judge_scenarios(chk, scen, rng, corpus_expect=None):
                     anomalies.append("op %s failed: %s" % (ops[i].get("op"), str(o)[:200]))
                 i += 1
                 continue
-            if p[0] == "stored":
-                _, m, side, writer_s3, script, raw, expect, dblocked = p
+            if p[0] == "ident":
+                if o.get("id") != p[1]:
+                    anomalies.append("unexpected user / role id %r (expected %d)" % (o, p[1]))
+            elif p[0] == "rcpt":
+                if not o.get("recv", "").startswith("250"):
+                    anomalies.append("RCPT was not accepted: %r" % o.get("recv", "")[:100])
+            elif p[0] == "stored":
+                _, m, side, writer_s3, script, raw, expect, dblocked, nrcpt = p
                 parts = parsed_of(raw)
                 recv = o.get("recv", "")
-                if o.get("skipped") or expect not in recv:
-                    anomalies.append("store of message %d through %s was not accepted: %r" % (m, side, recv[:200]))
-                sent.append(parts)
+                if o.get("skipped") or recv.count(expect) < nrcpt:
+                    anomalies.append("store of message %d through %s (%d recipient(s)) was not accepted for every recipient: %r" % (m, side, nrcpt, recv[:200]))
                 for (enc, content, named, hashed) in parts:
                     H[sha(content)] = content
                     H[sha(hashed)] = hashed
@@ -563,8 +614,13 @@ def judge_scenarios(chk, scen, rng, corpus_expect=None):
                 while plan[j] is None or plan[j][0] != "storelog":
                     j += 1
                 evlog = effective(obs[j].get("log") or [])
-                evs.append("EStore %s %s %s %s" % (C.coq_bool(writer_s3), oracle_of(evlog), C.coq_list(["OFail"] * len(parts) if dblocked else []), C.coq_list(
-                    ["mkPart %s %s %s" % (T(enc), T(content), C.coq_bool(named)) for (enc, content, named, _) in parts])))
+                for ri in range(nrcpt):
+                    sent.append(parts)
+                    # several recipients: only unscripted transactions (every outcome ok), so each
+                    # recipient's store loop sees an all-ok oracle
+                    orc = oracle_of(evlog) if nrcpt == 1 else "[]"
+                    evs.append("EStore %s %s %s %s" % (C.coq_bool(writer_s3), orc, C.coq_list(["OFail"] * len(parts) if dblocked else []), C.coq_list(
+                        ["mkPart %s %s %s" % (T(enc), T(content), C.coq_bool(named)) for (enc, content, named, _) in parts])))
             elif p[0] == "lose":
                 if p[1] is None:
                     evs.append("ELose (map fst (w_objs (crun %s)))" % C.coq_list(list(evs)))
@@ -583,7 +639,7 @@ def judge_scenarios(chk, scen, rng, corpus_expect=None):
             elif p[0] == "blobs":
                 blobs = o.get("rows") or []
             elif p[0] == "rows":
-                rows = o.get("rows") or []
+                rows_by_store[p[1]] = o.get("rows") or []
             elif p[0] == "bucket":
                 bucket = o.get("objects") or []
             i += 1
@@ -617,15 +673,23 @@ def judge_scenarios(chk, scen, rng, corpus_expect=None):
                 oobjs.append(T(b"?unresolved " + name.encode()))
             else:
                 oobjs.append(T(c))
-        # observed rows grouped by message
-        by_msg = {}
-        for (mid, rid, blob, text, enc) in rows:
-            by_msg.setdefault(mid, []).append((blob, C.unlatin(text), C.unlatin(enc)))
+        # observed rows grouped by message; model message m = m-th stored copy, which is
+        # the j-th message of the store file it went to
+        groups = {}
+        for store, rws in rows_by_store.items():
+            by_msg = {}
+            for (mid, rid, blob, text, enc) in rws:
+                by_msg.setdefault(mid, []).append((blob, C.unlatin(text), C.unlatin(enc)))
+            groups[store] = [by_msg[mid] for mid in sorted(by_msg)]
+        if sum(len(g) for g in groups.values()) != len(copies):
+            anomalies.append("%d messages in the stores, %d copies were delivered" % (sum(len(g) for g in groups.values()), len(copies)))
         omsgs = []
-        for mi, mid in enumerate(sorted(by_msg)):
+        for mi, (store, conn, mbox, seq) in enumerate(copies):
             parts = sent[mi] if mi < len(sent) else []
+            grp = groups.get(store, [])
+            rws = grp[seq - 1] if seq - 1 < len(grp) else []
             l = []
-            for ri, (blob, text, enc) in enumerate(by_msg[mid]):
+            for ri, (blob, text, enc) in enumerate(rws):
                 own = parts[ri][1] if ri < len(parts) else b"?no such part"
                 penc = parts[ri][0] if ri < len(parts) else enc
                 l.append("orow %s %s %s %s" % ("None" if blob is None else "(Some %d)" % blob, T(text), T(penc), T(own)))
@@ -673,7 +737,7 @@ def judge_scenarios(chk, scen, rng, corpus_expect=None):
             pfx, pfx, stt, C.coq_list(rc) if rc else "(@nil nat)", C.coq_list(ra) if ra else "(@nil nat)"))
         d.append("Print %s_res." % pfx)
         body_defs.append("\n".join(d))
-        layout.append({"reads": reads, "readalls": readalls, "anomalies": anomalies, "nev": len(evs), "sent": sent,
+        layout.append({"copies": copies, "reads": reads, "readalls": readalls, "anomalies": anomalies, "nev": len(evs), "sent": sent,
                        "nblobs": len(blobs), "nreq": len(storelog)})
 
     body = C.COQ_CASE_HEADER + "From Raven Require Import Base.Enum Model.BlobCodec Model.Blobs Model.BlobsEq.\n"
@@ -721,8 +785,9 @@ def judge_scenarios(chk, scen, rng, corpus_expect=None):
                 stats["faulted_reads"] += 1
             distinct.add((si, n, reader, m, k, tuple(script)))
             disagree, viol, cls = code & 1, (code >> 1) & 1, code >> 2
-            descr = "FETCH %d %s by a reader with S3 %s after %d events (script %s) returned %r" % (
-                m + 1, item, "on" if reader else "off", n, script, None if impl is None else ("a tagged NO" if impl is NO else impl[:60]))
+            where = lay["copies"][m] if m < len(lay["copies"]) else ("?", "?", "?", m + 1)
+            descr = "FETCH %d %s in %s of %s (copy %d of the history) by a reader with S3 %s after %d events (script %s) returned %r" % (
+                where[3], item, where[2], where[0], m, "on" if reader else "off", n, script, None if impl is None else ("a tagged NO" if impl is NO else impl[:60]))
             pl = dict(payload, read={"events": n, "reader_s3": reader, "msg": m, "part": k, "script": script})
             if code >= 99 * 1 and cls > 3:
                 nd += 1
